@@ -611,3 +611,77 @@ pub fn lo_scenario(ch: &mut Chooser) -> Exec {
     }
     Exec { outcome: Digest::of64(&obs), violation, features: vec!["lo"] }
 }
+
+/// Identical datagrams (same endpoints, same payload) under a rule that delays every packet by
+/// the same amount: packets that compare equal are still distinct packets -- each one is
+/// delivered, once, inside its own window, in emission order.
+pub fn identical_scenario(ch: &mut Chooser) -> Exec {
+    let n = 2 + ch.choose("identical_datagrams", 3);
+    let gaps: Vec<u64> = (0..n).map(|_| ch.choose("gap_ticks", 3) as u64).collect();
+    let tv = *ch.of("delay", &[TV::DHalf, TV::D1, TV::D2Half]);
+    let d_us = tv.us();
+    let recv_log: Rc<RefCell<Vec<u64>>> = Rc::new(RefCell::new(vec![]));
+    let send_log: Rc<RefCell<Vec<u64>>> = Rc::new(RefCell::new(vec![]));
+    let (rl, sl) = (recv_log.clone(), send_log.clone());
+    let gaps2 = gaps.clone();
+    let result = vx_core::catch(move || {
+        turmoil_net::fixture::ClientServer::new()
+            .server(S1, async move {
+                let s = UdpSocket::bind(("0.0.0.0".parse::<IpAddr>().unwrap(), PORT)).await.unwrap();
+                let start = tokio::time::Instant::now();
+                let mut buf = [0u8; 4];
+                loop {
+                    let (n, _) = s.recv_from(&mut buf).await.unwrap();
+                    if n == 1 && buf[0] == 9 {
+                        rl.borrow_mut().push(start.elapsed().as_micros() as u64);
+                    }
+                }
+            })
+            .run(C, async move {
+                let start = tokio::time::Instant::now();
+                let _g = turmoil_net::rule(move |p: &Packet| if tag_of(p) == 9 { tv_verdict(tv) } else { Verdict::Pass });
+                let s = UdpSocket::bind(("0.0.0.0".parse::<IpAddr>().unwrap(), PORT)).await.unwrap();
+                for gap in gaps2 {
+                    if gap > 0 {
+                        tokio::time::sleep(Duration::from_micros(gap * TICK_US)).await;
+                    }
+                    sl.borrow_mut().push(start.elapsed().as_micros() as u64);
+                    s.send_to(&[9], (S1.parse::<IpAddr>().unwrap(), PORT)).await.unwrap();
+                }
+                tokio::time::sleep(Duration::from_millis(10)).await;
+            })
+    });
+    let sends = send_log.borrow().clone();
+    let recvs = recv_log.borrow().clone();
+    let obs = format!("n={n} gaps={gaps:?} delay={d_us}us sends={sends:?} recvs={recvs:?}");
+    let mut violation = None;
+    match result {
+        Err(p) => violation = Some(Violation::new("panic", format!("fixture run panicked: {p}"))),
+        Ok(()) => {
+            if recvs.len() != sends.len() {
+                violation = Some(Violation::new(
+                    "identical-datagrams",
+                    format!("{} identical datagrams were sent under Deliver({d_us}us) and none was given Drop; {} arrived (send times {sends:?}, arrival times {recvs:?})", sends.len(), recvs.len()),
+                ));
+            } else {
+                // k-th arrival belongs to the k-th emission (equal delays keep emission order)
+                for (k, (s, r)) in sends.iter().zip(recvs.iter()).enumerate() {
+                    let emit = (s / TICK_US + 1) * TICK_US;
+                    if *r < emit + d_us || *r > emit + d_us + TICK_US {
+                        violation = Some(Violation::new(
+                            "deadline",
+                            format!("identical datagram #{k}: left its host at {emit}us with delay {d_us}us, arrived at {r}us; allowed window [{}, {}]us", emit + d_us, emit + d_us + TICK_US),
+                        ));
+                        break;
+                    }
+                }
+            }
+        }
+    }
+    if let Some(v) = violation.as_mut() {
+        v.sig = format!("identical|{}", v.clause);
+        v.scenario = "c19-identical-datagrams".into();
+        v.actions = vec![obs.clone()];
+    }
+    Exec { outcome: Digest::of64(&obs), violation, features: vec![] }
+}
